@@ -34,7 +34,7 @@ def work_benign(job):
     for name in names:
         d = os.path.join(VERIF, 'seeded', 'benign', name)
         meta = json.load(open(os.path.join(d, 'meta.json')))
-        sh('git checkout -- .', cwd=wt)
+        sh('git checkout -- . && git clean -fdq', cwd=wt)
         rc, out = sh('git apply %s' % os.path.join(d, 'patch.diff'), cwd=wt)
         if rc != 0:
             meta['applies_to_head'] = False
@@ -51,7 +51,7 @@ def work_benign(job):
                 alarms[pid] = {'exit': rc, 'lines': [l for l in out.splitlines() if 'VIOLATION' in l or 'ANALYSIS-ERROR' in l
                                                     or '[R-' in l or '[D-' in l][:8]}
         shutil.rmtree(ev, ignore_errors=True)
-        sh('git checkout -- .', cwd=wt)
+        sh('git checkout -- . && git clean -fdq', cwd=wt)
         meta['alarms'] = alarms
         meta['applies_to_head'] = True
         meta['checked_at'] = head
@@ -67,7 +67,7 @@ def work(job):
     for name in names:
         d = os.path.join(VERIF, 'seeded', name)
         meta = json.load(open(os.path.join(d, 'meta.json')))
-        sh('git checkout -- .', cwd=wt)
+        sh('git checkout -- . && git clean -fdq', cwd=wt)
         rc, out = sh('git apply %s' % os.path.join(d, 'patch.diff'), cwd=wt)
         if rc != 0:
             rows.append((name, meta['property'], None, [], ['PATCH DOES NOT APPLY']))
@@ -84,7 +84,7 @@ def work(job):
             elif rc != 0:
                 errors.append(pid)
         shutil.rmtree(ev, ignore_errors=True)
-        sh('git checkout -- .', cwd=wt)
+        sh('git checkout -- . && git clean -fdq', cwd=wt)
         meta['checks'] = {'caught_by': caught, 'analysis_errors': errors,
                           'target_property_check_fired': meta['property'] in caught}
         json.dump(meta, open(os.path.join(d, 'meta.json'), 'w'), indent=1)
